@@ -159,7 +159,13 @@ func (k *Keeper) UpdateRateLimit(ctx sdk.Context, msg *types.MsgUpdateRateLimit)
 		Flow:  &flow,
 	})
 
-	return nil
+	// The flow starts from zero again, so packets accepted before the update no longer count towards it.
+	// Drop their pending markers (as ResetRateLimit does): otherwise the later refund of such a packet
+	// would be subtracted from the new window's flow.
+	if err := k.RemoveAllChannelPendingSendPackets(ctx, msg.ChannelOrClientId, msg.Denom); err != nil {
+		return err
+	}
+	return k.RemoveAllChannelPendingReceivePackets(ctx, msg.ChannelOrClientId, msg.Denom)
 }
 
 // Reset the rate limit after expiration
